@@ -228,6 +228,8 @@ pub struct Exec<'a, RK: RadioKind> {
     cad_ctx: Option<(u8, u8)>,
     lw_rx_set: bool,
     init_failed: bool,
+    /// after the failed init() the caller went on with a successful prepare_* / adapter call (no init() in between)
+    prepared_since_failed_init: bool,
     pub stats: RunStats,
     shape: Fnv,
     pub violation: Option<Violation>,
@@ -265,6 +267,7 @@ impl<'a, RK: RadioKind> Exec<'a, RK> {
             cad_ctx: None,
             lw_rx_set: false,
             init_failed: false,
+            prepared_since_failed_init: false,
             stats: RunStats::default(),
             shape: Fnv::new(),
             violation: None,
@@ -429,7 +432,15 @@ impl<'a, RK: RadioKind> Exec<'a, RK> {
         let a = self.world.borrow_mut().env.alerts.first().cloned();
         if let Some(a) = a {
             // context: did an init() fail after pulsing NRESET, with no successful init() since?
-            let ctx = if self.init_failed { "after-failed-init" } else { "normal" };
+            // "after-failed-init": the caller carried on with a new prepare_* although init() had failed;
+            // "after-failed-init-unprepared": the driver let an operation start with nothing prepared since
+            let ctx = if self.init_failed && self.prepared_since_failed_init {
+                "after-failed-init"
+            } else if self.init_failed {
+                "after-failed-init-unprepared"
+            } else {
+                "normal"
+            };
             let msg = if self.init_failed { format!("{} [an earlier init() failed after resetting the chip]", a.message) } else { a.message };
             self.violate(a.invariant, format!("{ctx}|{}", a.detail), msg);
         }
@@ -459,8 +470,21 @@ impl<'a, RK: RadioKind> Exec<'a, RK> {
                 *m = RxM::Continuous;
             }
         }
-        if (has(case, TAG_INIT_FAULT) || (has(case, TAG_INIT_FAULT_127X) && !self.is_126x)) && matches!(step.op, Op::Init) && step.fault.map(|f| f.at <= 1).unwrap_or(false) {
+        if has(case, TAG_INIT_FAULT) && matches!(step.op, Op::Init) && step.fault.map(|f| f.at <= 1).unwrap_or(false) {
             step.fault = None;
+        }
+        if has(case, TAG_INIT_FAULT_127X) && !self.is_126x && matches!(step.op, Op::Init) && step.fault.map(|f| f.at <= 1).unwrap_or(false) {
+            // the known finding needs the caller to carry on with a prepare_* after this failed init(): only then is
+            // the fault taken out; a caller that goes straight to tx / start_rx / cad must be refused, and that stays explored
+            let carries_on = case.steps[(idx + 1).min(case.steps.len())..]
+                .iter()
+                .take_while(|s| !matches!(s.op, Op::Init))
+                .any(|s| matches!(s.op, Op::PrepTx { .. } | Op::PrepRx { .. } | Op::PrepCad { .. } | Op::Listen { .. } | Op::LwTx { .. } | Op::LwSetupRx { .. } | Op::SetSyncWord { .. } | Op::Sleep { .. } | Op::LwLowPower));
+            if carries_on {
+                step.fault = None;
+            } else {
+                self.stats.bump("probe.sx127x-init-fault-kept-no-prepare-follows");
+            }
         }
         let mut drop_spurious = false;
         if has(case, TAG_CAD_SPURIOUS) && matches!(step.op, Op::Cad) {
@@ -537,6 +561,9 @@ impl<'a, RK: RadioKind> Exec<'a, RK> {
 
         if matches!(step.op, Op::Init) {
             self.init_failed = res != Res::Ok && log.other > 0;
+            self.prepared_since_failed_init = false;
+        } else if self.init_failed && res.is_ok() && matches!(step.op, Op::PrepTx { .. } | Op::PrepRx { .. } | Op::PrepCad { .. } | Op::Listen { .. } | Op::LwTx { .. } | Op::LwSetupRx { .. }) {
+            self.prepared_since_failed_init = true;
         }
         // ---- monitors (b) and (c): raised by the chip model ----
         self.take_alert();
@@ -669,7 +696,9 @@ impl<'a, RK: RadioKind> Exec<'a, RK> {
         let fam = self.case.chip.family();
         let probe = [Step::of(Op::PrepTx { ch: 1, dr: 0, power: 10, len: 9 }), Step::of(Op::Tx)];
         let mut last = String::new();
-        for attempt in 0..3 {
+        // stay away from the registered known finding: after a failed init() of an SX127x the recovery starts with init()
+        let first = if self.init_failed && !self.is_126x && has(self.case, TAG_INIT_FAULT_127X) { 2 } else { 0 };
+        for attempt in first..3 {
             if attempt == 2 {
                 self.world.borrow_mut().env.tr(|| "recovery: re-initialising".into());
                 let mut w0 = Waits { irqs: &[], next: 0, implicit_done_used: false, cancelled: None, applied: vec![], hung_busy: false, drop_spurious: false };
@@ -679,6 +708,8 @@ impl<'a, RK: RadioKind> Exec<'a, RK> {
                     last = format!("init: {r:?}");
                     break;
                 }
+                self.init_failed = false;
+                self.prepared_since_failed_init = false;
             }
             let n_before = self.tx_log_len();
             let mut ok = true;
@@ -702,6 +733,9 @@ impl<'a, RK: RadioKind> Exec<'a, RK> {
                     ok = false;
                     last = format!("{}: {r:?}", s.op.name());
                     break;
+                }
+                if self.init_failed && matches!(s.op, Op::PrepTx { .. }) {
+                    self.prepared_since_failed_init = true;
                 }
             }
             self.take_alert();
